@@ -1,7 +1,441 @@
-//! C20 — not implemented yet.
+//! C20 — explain and profile do not change results.
+//! Engine: inputmc explain — small worlds (tie-prone texts, present / missing / multi-valued fast
+//! fields, 1-2 segments) x a request alphabet covering every top-level feature (limits, executions,
+//! sort plans, filters, custom scoring, aggregations, collapse with inner hits, rescore, second
+//! pages of cursor walks) x {explain, profile} in 2^2, compared with the flags-off run.
+
+use std::collections::BTreeSet;
+use std::sync::atomic::{AtomicBool, AtomicU64, Ordering};
+
+use parking_lot::Mutex;
+use serde_json::{json, Value};
+
+use searchlite_core::api::{IndexReader, SearchResult};
+use vcore::ev::Reporter;
+use vcore::inp::*;
+use vcore::world::*;
+
+use crate::c09::{self, FailLog, TOL};
 use crate::Ctx;
 
-pub fn run(_ctx: &Ctx) -> i32 {
-  eprintln!("C20: check not implemented");
-  2
+pub const SIG_FIELD_SORT_SCORES: &str = "C20-explain-fills-scores-under-field-only-sort";
+pub const SIG_POOL: &str = "C20-explain-widens-candidate-pool-for-rescore-and-collapse";
+
+fn shapes() -> Vec<Value> {
+  vec![
+    json!({"body": "a", "kw": "x", "n": 1, "f": 1.0, "pop": 1}),
+    json!({"body": "a a b", "kw": "x", "n": 2, "f": 0.5, "pop": 9}),
+    json!({"body": "a b", "kw": "y", "n": [1, 2], "f": 2.5, "pop": 3}),
+    json!({"body": "b", "kw": "y", "n": 2, "pop": 2}),
+    json!({"body": "a b b c c c", "f": [0.5, 2.5], "pop": 5}),
+    json!({"body": "a", "kw": "z", "n": 1, "f": 1.0, "pop": 4}),
+  ]
+}
+
+fn mk_world(shape_idx: &[usize], layout: &[usize]) -> World {
+  let sh = shapes();
+  let docs: Vec<Value> = shape_idx
+    .iter()
+    .enumerate()
+    .map(|(i, s)| {
+      let mut d = sh[*s].clone();
+      d["_id"] = json!(id_of(i));
+      d
+    })
+    .collect();
+  World::new("body+kw+pop+n+f", c09::schema_json(), docs).with_layout(layout.to_vec())
+}
+
+/// (name, request without flags, walk to the second page first?)
+fn requests() -> Vec<(&'static str, Value, bool)> {
+  let term_b = json!({"type": "term", "field": "body", "value": "b"});
+  let fs = json!({"type": "function_score", "query": {"type": "query_string", "query": "a b"}, "boost_mode": "multiply",
+    "functions": [{"type": "weight", "weight": 2.0, "filter": {"I64Range": {"field": "pop", "min": 3, "max": 1000}}}]});
+  let aggs = json!({"by_kw": {"type": "terms", "field": "kw"}, "n_stats": {"type": "stats", "field": "n"}});
+  let mut v: Vec<(&'static str, Value, bool)> = vec![
+    ("top2-wand", json!({"query": "a", "limit": 2, "execution": "wand"}), false),
+    ("top2-bm25", json!({"query": "a b", "limit": 2, "execution": "bm25"}), false),
+    ("top1-bmw", json!({"query": "a b", "limit": 1, "execution": "bmw", "bmw_block_size": 2}), false),
+    ("all", json!({"query": "a b c", "limit": 100, "execution": "wand"}), false),
+    ("score-asc", json!({"query": "a b", "limit": 2, "execution": "wand", "sort": [{"field": "_score", "order": "asc"}]}), false),
+    ("sort-kw", json!({"query": "a b", "limit": 2, "execution": "wand", "sort": [{"field": "kw"}]}), false),
+    ("sort-n-kw", json!({"query": "a b", "limit": 2, "execution": "bm25", "sort": [{"field": "n", "order": "desc"}, {"field": "kw", "order": "asc"}]}), false),
+    ("sort-f-score", json!({"query": "a b c", "limit": 3, "execution": "wand", "sort": [{"field": "f", "order": "desc"}, {"field": "_score", "order": "desc"}]}), false),
+    ("match-all", json!({"query": {"type": "match_all"}, "limit": 2, "execution": "wand"}), false),
+    ("match-all-sort", json!({"query": {"type": "match_all"}, "limit": 2, "execution": "wand", "sort": [{"field": "kw", "order": "desc"}]}), false),
+    ("function-score", json!({"query": fs, "limit": 2, "execution": "bm25"}), false),
+    ("function-score-min", json!({"query": {"type": "function_score", "query": {"type": "query_string", "query": "a"}, "boost_mode": "sum", "min_score": 1.2,
+        "functions": [{"type": "field_value_factor", "field": "pop", "factor": 0.1}]}, "limit": 2, "execution": "bm25"}), false),
+    ("script-score", json!({"query": {"type": "script_score", "query": {"type": "query_string", "query": "a b"}, "script": "_score + pop * 0.1"}, "limit": 2, "execution": "bm25"}), false),
+    ("rank-feature", json!({"query": {"type": "bool", "must": [{"type": "term", "field": "body", "value": "a"}], "should": [{"type": "rank_feature", "field": "pop", "modifier": "sqrt"}]}, "limit": 2, "execution": "bm25"}), false),
+    ("filter", json!({"query": "a b", "limit": 2, "execution": "wand", "filter": {"I64Range": {"field": "n", "min": 2, "max": 9}}}), false),
+    ("aggs", json!({"query": "a b", "limit": 2, "execution": "wand", "aggs": aggs}), false),
+    ("aggs-sort", json!({"query": "a", "limit": 1, "execution": "bm25", "sort": [{"field": "kw"}], "aggs": aggs}), false),
+    ("aggs-only", json!({"query": "a b", "limit": 1, "return_hits": false, "execution": "wand", "aggs": aggs}), false),
+    ("collapse", json!({"query": "a b", "limit": 2, "execution": "bm25", "collapse": {"field": "kw"}}), false),
+    ("collapse-inner", json!({"query": "a b c", "limit": 100, "execution": "bm25", "collapse": {"field": "kw", "inner_hits": {"size": 2}}}), false),
+    ("collapse-sort", json!({"query": "a b", "limit": 1, "execution": "bm25", "sort": [{"field": "n"}], "collapse": {"field": "kw", "inner_hits": {"size": 1}}}), false),
+  ];
+  for (name, w, mode) in [("rescore-w1", 1, "total"), ("rescore-w2", 2, "multiply"), ("rescore-w3", 3, "total"), ("rescore-w9", 9, "max")] {
+    v.push((name, json!({"query": "a", "limit": 2, "execution": "bm25", "rescore": {"window_size": w, "query": term_b, "score_mode": mode}}), false));
+  }
+  v.push(("rescore-score-asc", json!({"query": "a b", "limit": 1, "execution": "bm25", "sort": [{"field": "_score", "order": "asc"}], "rescore": {"window_size": 9, "query": term_b, "score_mode": "total"}}), false));
+  v.push(("rescore-sort-kw", json!({"query": "a b", "limit": 2, "execution": "bm25", "sort": [{"field": "kw"}, {"field": "_score"}], "rescore": {"window_size": 2, "query": term_b, "score_mode": "multiply"}}), false));
+  v.push(("collapse-score-asc", json!({"query": "a b", "limit": 1, "execution": "bm25", "sort": [{"field": "_score", "order": "asc"}], "collapse": {"field": "kw"}}), false));
+  v.push(("rescore-all", json!({"query": "a b", "limit": 100, "execution": "bm25", "rescore": {"window_size": 3, "query": term_b, "score_mode": "total"}}), false));
+  // second pages
+  v.push(("page2-score", json!({"query": "a b", "limit": 1, "execution": "wand"}), true));
+  v.push(("page2-score-bm25", json!({"query": "a b c", "limit": 2, "execution": "bm25"}), true));
+  v.push(("page2-sort", json!({"query": "a b", "limit": 1, "execution": "bm25", "sort": [{"field": "kw"}, {"field": "n", "order": "desc"}]}), true));
+  v.push(("page2-aggs", json!({"query": "a b", "limit": 1, "execution": "wand", "aggs": aggs}), true));
+  v
+}
+
+fn with_flags(base: &Value, explain: bool, profile: bool) -> Value {
+  let mut r = base.clone();
+  r["explain"] = json!(explain);
+  r["profile"] = json!(profile);
+  r
+}
+
+fn hit_list(res: &SearchResult) -> Vec<(String, f32)> {
+  id_scores(res)
+}
+
+/// Compare two hit lists. Returns the differing aspects: "hits" (ids / order / count) or "scores".
+/// A swap is tolerated only between hits whose scores are within TOL of each other and not
+/// bit-identical across the two runs.
+fn diff_hits(on: &[(String, f32)], off: &[(String, f32)]) -> Option<(&'static str, String)> {
+  if on.len() != off.len() {
+    return Some(("hits", format!("{} hits instead of {}", on.len(), off.len())));
+  }
+  for (i, (a, b)) in on.iter().zip(off).enumerate() {
+    if a.0 != b.0 {
+      match off.iter().find(|h| h.0 == a.0) {
+        Some(h) if approx(h.1, a.1, TOL) && approx(b.1, a.1, TOL) && h.1.to_bits() != a.1.to_bits() => {}
+        _ => return Some(("hits", format!("rank {}: {} with the flag, {} without", i + 1, a.0, b.0))),
+      }
+    }
+  }
+  for (i, (a, b)) in on.iter().zip(off).enumerate() {
+    if !approx(a.1, b.1, TOL) {
+      return Some(("scores", format!("rank {}: {} scores {} with the flag, {} scores {} without", i + 1, a.0, a.1, b.0, b.1)));
+    }
+  }
+  None
+}
+
+fn explanation_consistent(res: &SearchResult) -> Result<u64, String> {
+  let mut n = 0;
+  for h in &res.hits {
+    let mut all = vec![h];
+    if let Some(inner) = &h.inner_hits {
+      all.extend(inner.iter());
+    }
+    for x in all {
+      if let Some(e) = &x.explanation {
+        n += 1;
+        if !approx(e.final_score, x.score, 1e-6) {
+          return Err(format!("hit {} has score {} but its explanation.final_score is {}", x.doc_id, x.score, e.final_score));
+        }
+      }
+    }
+  }
+  Ok(n)
+}
+
+/// All differing aspects between the flagged and the flags-off response, plus the number of
+/// explanations whose final_score was checked.
+fn diff(on: &SearchResult, off: &SearchResult, explain: bool) -> (Vec<(&'static str, String)>, u64) {
+  let mut d: Vec<(&'static str, String)> = Vec::new();
+  if let Some(x) = diff_hits(&hit_list(on), &hit_list(off)) {
+    d.push(x);
+  }
+  if on.total_hits_estimate != off.total_hits_estimate {
+    d.push(("total_hits_estimate", format!("total_hits_estimate {} with the flag, {} without", on.total_hits_estimate, off.total_hits_estimate)));
+  }
+  if on.total_groups != off.total_groups {
+    d.push(("total_groups", format!("total_groups {:?} with the flag, {:?} without", on.total_groups, off.total_groups)));
+  }
+  if on.next_cursor != off.next_cursor {
+    d.push(("next_cursor", format!("next_cursor {:?} with the flag, {:?} without", on.next_cursor, off.next_cursor)));
+  }
+  let (a, b) = (serde_json::to_value(&on.aggregations).unwrap_or(Value::Null), serde_json::to_value(&off.aggregations).unwrap_or(Value::Null));
+  if a != b {
+    d.push(("aggregations", format!("aggregations {a} with the flag, {b} without")));
+  }
+  if on.hits.len() == off.hits.len() {
+    for (h1, h2) in on.hits.iter().zip(&off.hits) {
+      let i1: Vec<(String, f32)> = h1.inner_hits.as_ref().map(|v| v.iter().map(|h| (h.doc_id.clone(), h.score)).collect()).unwrap_or_default();
+      let i2: Vec<(String, f32)> = h2.inner_hits.as_ref().map(|v| v.iter().map(|h| (h.doc_id.clone(), h.score)).collect()).unwrap_or_default();
+      if let Some((k, e)) = diff_hits(&i1, &i2) {
+        d.push((if k == "hits" { "inner_hits" } else { "inner_scores" }, format!("inner_hits of {}: {e}", h1.doc_id)));
+        break;
+      }
+    }
+  }
+  if explain {
+    if let Some(h) = on.hits.iter().find(|h| h.explanation.is_none()) {
+      d.push(("explanation_missing", format!("explain is on but hit {} carries no explanation", h.doc_id)));
+    }
+  }
+  let n = match explanation_consistent(on) {
+    Ok(n) => n,
+    Err(e) => {
+      d.push(("explanation_final_score", e));
+      0
+    }
+  };
+  (d, n)
+}
+
+struct Prepared {
+  base: Value,
+}
+
+/// Resolve the request (walk to page 2 when asked). None: no second page in this world.
+fn prepare(reader: &IndexReader, base: &Value, page2: bool) -> Result<Option<Prepared>, String> {
+  if !page2 {
+    return Ok(Some(Prepared { base: base.clone() }));
+  }
+  let first = search_caught(reader, &req(with_flags(base, false, false)))?;
+  match first.next_cursor {
+    Some(c) => {
+      let mut b = base.clone();
+      b["cursor"] = json!(c);
+      Ok(Some(Prepared { base: b }))
+    }
+    None => Ok(None),
+  }
+}
+
+fn sort_has_score(base: &Value) -> bool {
+  match base.get("sort").and_then(|s| s.as_array()) {
+    Some(a) if !a.is_empty() => a.iter().any(|k| k["field"].as_str() == Some("_score")),
+    _ => true,
+  }
+}
+
+/// Classifiers for the explain defects observed on the pinned tree (reader.rs `search` /
+/// `search_segment`). A failure is attributed only when the flagged response is *exactly* what the
+/// named mechanism predicts; everything else stays unexplained.
+///
+///  * SIG_FIELD_SORT_SCORES — under a sort plan without `_score` (and a tree without custom scoring)
+///    the engine runs in match-only mode and reports score 0 for every hit; `explain` forces the
+///    score hook (`use_score_hook = needs_score_hook || explain`), so the same hits come back with
+///    their BM25 scores. Attributed when only scores differ, every flags-off score is 0 and every
+///    flagged score equals the document's score under the default sort.
+///  * SIG_POOL — with `explain` and a sort plan other than the default, `search` sets the
+///    per-segment rank limit to `live_docs` and bypasses the shared limit+1 heap (`collect_hits` is
+///    only installed when `!req.explain`), so rescoring and collapsing see every match instead of
+///    the limit+1 candidates of the flags-off run. Attributed when the flagged response equals the
+///    flags-off response of the same request with `candidate_size` raised to cover every match,
+///    i.e. the only thing `explain` changed is the candidate pool handed to rescore / collapse.
+fn classify(reader: &IndexReader, base: &Value, explain: bool, on: &SearchResult, off: &SearchResult, aspects: &[&'static str]) -> Option<&'static str> {
+  if !explain {
+    return None;
+  }
+  if aspects.iter().all(|a| *a == "scores" || *a == "inner_scores") && !sort_has_score(base) {
+    if !off.hits.iter().all(|h| h.score == 0.0) {
+      return None;
+    }
+    let mut plain = json!({"query": base["query"], "limit": 100, "execution": "bm25"});
+    if let Some(f) = base.get("filter") {
+      plain["filter"] = f.clone();
+    }
+    let truth = search_caught(reader, &req(plain)).ok()?;
+    for h in &on.hits {
+      match truth.hits.iter().find(|t| t.doc_id == h.doc_id) {
+        Some(t) if approx(t.score, h.score, TOL) => {}
+        _ => return None,
+      }
+    }
+    return Some(SIG_FIELD_SORT_SCORES);
+  }
+  let has_rescore = base.get("rescore").map(|r| !r.is_null()).unwrap_or(false);
+  let has_collapse = base.get("collapse").map(|r| !r.is_null()).unwrap_or(false);
+  if has_rescore || has_collapse {
+    let mut wide = with_flags(base, false, false);
+    wide["candidate_size"] = json!(10_000);
+    let w = search_caught(reader, &req(wide)).ok()?;
+    // with the widened pool the flags-off run may return more hits than `limit`-truncated... it does
+    // not: limit still applies. Scores under field-only sorts are 0 without the flag: ignore them.
+    let ids = |r: &SearchResult| r.hits.iter().map(|h| h.doc_id.clone()).collect::<Vec<_>>();
+    let same = if sort_has_score(base) { diff_hits(&hit_list(on), &hit_list(&w)).is_none() } else { ids(on) == ids(&w) };
+    if same && on.total_groups == w.total_groups {
+      return Some(SIG_POOL);
+    }
+  }
+  None
+}
+
+enum Outcome {
+  Same { explanations: u64, hits: usize },
+  Skipped,
+  Fail(Option<&'static str>, String, String),
+}
+
+fn check_case(reader: &IndexReader, base: &Value, page2: bool, explain: bool, profile: bool) -> Outcome {
+  let p = match prepare(reader, base, page2) {
+    Ok(Some(p)) => p,
+    Ok(None) => return Outcome::Skipped,
+    Err(e) => return Outcome::Fail(None, "first-page".into(), format!("first page failed: {e}")),
+  };
+  let off = search_caught(reader, &req(with_flags(&p.base, false, false)));
+  let on = search_caught(reader, &req(with_flags(&p.base, explain, profile)));
+  match (on, off) {
+    (Ok(on), Ok(off)) => {
+      if profile && on.profile.is_none() {
+        return Outcome::Fail(None, "profile-missing".into(), "profile is on but the response carries no profile".into());
+      }
+      let (d, n) = diff(&on, &off, explain);
+      if d.is_empty() {
+        return Outcome::Same { explanations: n, hits: on.hits.len() };
+      }
+      let aspects: Vec<&'static str> = d.iter().map(|x| x.0).collect();
+      let sig = classify(reader, &p.base, explain, &on, &off, &aspects);
+      Outcome::Fail(
+        sig,
+        aspects.join("+"),
+        format!("with the flag: hits {:?}; without: hits {:?}: {}", hit_list(&on), hit_list(&off), d.iter().map(|x| x.1.clone()).collect::<Vec<_>>().join("; ")),
+      )
+    }
+    (Err(a), Err(b)) => {
+      if a.starts_with("PANIC") != b.starts_with("PANIC") {
+        Outcome::Fail(None, "error".into(), format!("with the flag: {a}; without: {b}"))
+      } else {
+        Outcome::Skipped
+      }
+    }
+    (Err(a), Ok(_)) => Outcome::Fail(None, "error".into(), format!("fails only with the flag: {a}")),
+    (Ok(_), Err(b)) => Outcome::Fail(None, "error".into(), format!("fails only without the flag: {b}")),
+  }
+}
+
+pub fn run(ctx: &Ctx) -> i32 {
+  let mut rep = Reporter::new("C20", ctx.tier, "exploration");
+  let quick = ctx.tier.is_quick();
+  if let Some(path) = &ctx.replay {
+    rep.set_replaying(true);
+    let v: Value = serde_json::from_slice(&std::fs::read(path).expect("replay file")).expect("json");
+    let cs = &v["case"];
+    let world = World::from_json(&cs["world"]);
+    let (explain, profile, page2) = (cs["explain"].as_bool().unwrap_or(false), cs["profile"].as_bool().unwrap_or(false), cs["second_page"].as_bool().unwrap_or(false));
+    let run1 = || {
+      let idx = world.build();
+      let reader = idx.reader().expect("reader");
+      match check_case(&reader, &cs["request"], page2, explain, profile) {
+        Outcome::Fail(sig, _, what) => Some(format!("[{}] {}", sig.unwrap_or("-"), what)),
+        _ => None,
+      }
+    };
+    let (a, b) = (run1(), run1());
+    if a.is_some() != b.is_some() {
+      vcore::ev::machinery_failure("NONDETERMINISM on replay");
+    }
+    return match a {
+      Some(w) => {
+        println!("VIOLATION property=C20 replay={path}\n  what: {w}");
+        1
+      }
+      None => {
+        println!("replay: no violation");
+        0
+      }
+    };
+  }
+
+  let k = shapes().len();
+  let sidx: Vec<usize> = (0..k).collect();
+  let mut ws: Vec<World> = Vec::new();
+  for s in sequences(&sidx, 2, if quick { 3 } else { 6 }) {
+    for lay in c09::layouts_1_2(s.len()) {
+      ws.push(mk_world(&s, &lay));
+    }
+  }
+  if quick {
+    for m in multisets(k, 4) {
+      for lay in [vec![4], vec![2, 2]] {
+        ws.push(mk_world(&m, &lay));
+      }
+    }
+  }
+  let reqs = requests();
+  let flags = [(true, false), (false, true), (true, true)];
+  let deadline = c09::budget(if quick { 30.0 } else { 840.0 });
+  let log = FailLog::new();
+  let evals = AtomicU64::new(0);
+  let nontrivial = AtomicU64::new(0);
+  let explanations = AtomicU64::new(0);
+  let worlds_done = AtomicU64::new(0);
+  let timed_out = AtomicBool::new(false);
+  let outcomes: Mutex<BTreeSet<String>> = Mutex::new(BTreeSet::new());
+  let (done, capped) = c09::par_sweep(&ws, &rep, deadline, |wi, world| {
+    let idx = world.build();
+    let reader = idx.reader().expect("reader");
+    let mut local: BTreeSet<String> = BTreeSet::new();
+    for (ri, (name, base, page2)) in reqs.iter().enumerate() {
+      for (fi, (explain, profile)) in flags.iter().enumerate() {
+        evals.fetch_add(1, Ordering::Relaxed);
+        match check_case(&reader, base, *page2, *explain, *profile) {
+          Outcome::Skipped => {
+            local.insert("skipped (no second page / request rejected either way)".into());
+          }
+          Outcome::Same { explanations: n, hits } => {
+            explanations.fetch_add(n, Ordering::Relaxed);
+            if hits >= 1 {
+              nontrivial.fetch_add(1, Ordering::Relaxed);
+              if !rep.sample_full() && ri % 7 == 3 && hits >= 2 {
+                rep.sample(json!({"world": world.describe(), "request": name, "explain": explain, "profile": profile, "hits": hits, "explanations_checked": n}));
+              }
+            }
+            local.insert(format!("same: hits{} explanations{}", hits.min(2), n.min(1)));
+          }
+          Outcome::Fail(sig, aspects, what) => {
+            local.insert(format!("violation[{}] request={} differs-in={}", sig.unwrap_or("-"), name, aspects));
+            log.add(
+              sig,
+              vec![wi as u64, ri as u64, fi as u64],
+              || format!("{} request[{}]={} second_page={} explain={} profile={}: {}", world.describe(), name, base, page2, explain, profile, what),
+              || json!({"engine": "inputmc-explain", "world": world.to_json(), "request_name": name, "request": base, "second_page": page2, "explain": explain, "profile": profile}),
+            );
+          }
+        }
+      }
+    }
+    outcomes.lock().extend(local);
+  });
+  worlds_done.store(done, Ordering::Relaxed);
+  timed_out.store(capped, Ordering::Relaxed);
+  log.flush(&rep);
+  rep.add_evals(evals.load(Ordering::Relaxed));
+  let to = timed_out.load(Ordering::Relaxed);
+  let outs = outcomes.lock().clone();
+  if outs.len() < 2 || explanations.load(Ordering::Relaxed) == 0 {
+    vcore::ev::machinery_failure("C20: vacuous (fewer than two outcomes or no explanation checked)");
+  }
+  let cov = vcore::cov! {
+    "distinct_nontrivial" => nontrivial.load(Ordering::Relaxed),
+    "rule" => "a (world, request, flag combination) case is non-trivial when the flagged response equals the flags-off response and carries at least one hit (whose explanation.final_score is then compared with its score)",
+    "worlds" => ws.len(),
+    "worlds_completed" => worlds_done.load(Ordering::Relaxed),
+    "world_space" => if quick { "every sequence of 2-3 of 6 document shapes x every 1-2 segment layout, plus every multiset of 4 shapes x {1 segment, 2+2}" } else { "every sequence of 2-6 of 6 document shapes x every 1-2 segment layout" },
+    "requests" => reqs.iter().map(|r| json!({"name": r.0, "second_page": r.2, "request": r.1})).collect::<Vec<_>>(),
+    "flag_combinations" => ["explain", "profile", "explain+profile"],
+    "explanations_checked" => explanations.load(Ordering::Relaxed),
+    "distinct_observed_outcomes" => outs.len(),
+    "observed_outcomes" => outs.iter().cloned().collect::<Vec<_>>(),
+    "failure_classes" => log.classes().iter().map(|(s, n)| json!({"signature": s, "cases": n})).collect::<Vec<_>>(),
+    "cap_hit" => if to { Some(format!("wall budget {deadline}s")) } else { None },
+    "exhaustive" => !to,
+  };
+  rep.finish(
+    cov,
+    vec![
+      "scores are compared within 1e-5 relative; two hits may swap only when their scores are within that tolerance and not bit-identical across the runs".into(),
+      "explanation.final_score is compared with the hit's score within 1e-6 relative, for hits and inner hits".into(),
+      "the profile and explanation members themselves are not compared with anything (only their presence)".into(),
+      "no deletions; keyword field single-valued or missing (collapse key)".into(),
+    ],
+  )
 }
